@@ -88,6 +88,51 @@ Definition effective_template (t : str) : str := match t with [] => default_temp
 Definition spec_configured (U : unicode) (t content : str) : option str :=
   spec_format U (effective_template t) content.
 
+(* --- histories of configurations: every NewConfig result is a function of its own argument, and a
+   configuration holds what its owner last assigned to it -- nothing else.  Written per handle, by
+   looking BACK through the history (most recent operation first); no shared store. ----------------- *)
+Inductive sop :=
+| SNew (s : str) | SSet (i : nat) (v : str) | SRead (i : nat) | SFmt (i : nat) (c : str).
+
+Fixpoint created (past : list sop) : nat :=     (* number of configurations created so far *)
+  match past with
+  | [] => O
+  | SNew _ :: r => S (created r)
+  | _ :: r => created r
+  end.
+
+(* the template configuration i holds after `past` (most recent first); None: no such configuration *)
+Fixpoint held (past : list sop) (i : nat) : option str :=
+  match past with
+  | [] => None
+  | SNew s :: r => if Nat.eqb i (created r) then Some (effective_template s) else held r i
+  | SSet j v :: r => if Nat.eqb i j && Nat.ltb i (created r) then Some v else held r i
+  | _ :: r => held r i
+  end.
+
+Inductive expect :=
+| EOk (s : str)          (* returns exactly s *)
+| EReject                (* must be an error *)
+| EBadHandle.
+
+Section History.
+  Variable U : unicode.
+  Definition of_option (o : option str) : expect := match o with Some r => EOk r | None => EReject end.
+  (* what operation o must yield after `past` *)
+  Definition expected (past : list sop) (o : sop) : expect :=
+    match o with
+    | SNew s => if is_empty_or_space U (effective_template s) then EReject else EOk (effective_template s)
+    | SSet i _ => if Nat.ltb i (created past) then EOk [] else EBadHandle
+    | SRead i => match held past i with Some f => EOk f | None => EBadHandle end
+    | SFmt i c => match held past i with Some f => of_option (spec_format U f c) | None => EBadHandle end
+    end.
+  Fixpoint expected_all (past : list sop) (ops : list sop) : list expect :=
+    match ops with
+    | [] => []
+    | o :: r => expected past o :: expected_all (o :: past) r
+    end.
+End History.
+
 (* --- identifiers of the round-trip clause: a lower-case letter then lower-case letters or digits, joined by single '_' --- *)
 Definition lower_word (w : str) : bool :=
   match w with
